@@ -655,6 +655,22 @@ def run(prog, rep, tier):
     if not seen511:
         raise CheckerError("R5.11: no decoder types recognised in blockreader/filedecompressor")
 
+    # ------------------------------------------------------------ R5.12 lift of C15 R15.2 (members of a named archive are attempted like named files)
+    import contextlib as _clP, io as _ioP
+    import c15 as _c15P
+    from common import Report as _RepP
+    R512 = rep.rule("R5.12", "members of an archive named on the command line are classified like files named on the command line (from C15 R15.2)")
+    _s15 = _RepP("C15", "quick", dict(rep.meta))
+    _s15.finish = lambda *a, **k: 0
+    with _clP.redirect_stdout(_ioP.StringIO()):
+        _c15P.run(prog, _s15, "quick")
+    for (rid_, key_, what_, det_) in _s15.violations:
+        if rid_ == "R15.2":
+            rep.violation(R512, key_.split("|", 1)[1], what_)
+    for k_ in sorted(_s15.rules.get("R15.2", {}).get("keys", ())):
+        rep.examined(R512, k_, sample={"rule": "R15.2", "instance": k_})
+    rep.floor("R5.12", 1)
+
     # ------------------------------------------------------------ R5.9 lift of C03 R3.8
     import contextlib as _cl9, io as _io9
     import c03 as _c03l
